@@ -98,6 +98,7 @@ type vfSession struct {
 	stdoutMark int
 	doctor     func([]*sourceFile) []*sourceFile // rewrites the sender's records (hostile names)
 	tunnelHook func(port int, dial func() net.Conn) net.Conn // wraps the client's tunnel connector
+	relayTunnelHook func(port int, dial func() net.Conn) net.Conn // wraps the relays' connector towards the server
 	tunOut      *vfWire // shadow tap: what the client wrote into its tunnel connection
 	tunIn       *vfWire // shadow tap: what the client read from its tunnel connection
 
@@ -311,11 +312,17 @@ func (s *vfSession) Start(srcPaths []string, destRoot string) {
 			})
 			for _, r := range s.relays {
 				r.SetTunnelConnector(func(port int) net.Conn {
-					conn, err := net.DialTimeout("tcp", fmt.Sprintf("127.0.0.1:%d", port), 2*time.Second)
-					if err != nil {
-						return nil
+					dial := func() net.Conn {
+						conn, err := net.DialTimeout("tcp", fmt.Sprintf("127.0.0.1:%d", port), 2*time.Second)
+						if err != nil {
+							return nil
+						}
+						return conn
 					}
-					return conn
+					if s.relayTunnelHook != nil {
+						return s.relayTunnelHook(port, dial)
+					}
+					return dial()
 				})
 			}
 		}
